@@ -117,6 +117,11 @@ def gen_case(rng, large=False):
         ads1 = [G.gen_adapter(rng, i, kinds=simple) for i in range(len(ads1))]
         ads2 = [G.gen_adapter(rng, i, upper=True, prefix="bd", kinds=simple) for i in range(len(ads1))]
         pair_adapters = True
+    if rng.random() < 0.12:
+        # adapter names are free text and end up in the info file, in {name} file names and in the report
+        a = rng.choice(ads1 + ads2)
+        a["name"] = rng.choice(["adapt\u00e9r", "\u03b22", "\u540d", "a\u00df-1"])
+        a["argv"] = [a["flag"], f"{a['name']}={a['spec']}"]
     opts = [x for a in ads1 + ads2 for x in a["argv"]]
     opts += ["-n", "1" if pair_adapters else str(rng.choice([1, 1, 2])), "-e", rng.choice(["0.1", "0.2"]), "-O", "3"]
     if pair_adapters:
